@@ -102,6 +102,10 @@ func (cb *CircuitBreaker) IOHandler(ctx context.Context, request []byte, next co
 			err = core.NewPanicError(e)
 		}
 		if err != nil {
+			// the time of this failure must be visible before the count that opens the
+			// breaker: a concurrent call that sees the count with an older time would
+			// take the recovery time for elapsed and forward.
+			atomic.StoreInt64(&cb.lastFailTime, time.Now().UnixNano())
 			atomic.AddUint64(&cb.failCount, 1)
 			atomic.StoreInt64(&cb.lastFailTime, time.Now().UnixNano())
 		}
